@@ -25,7 +25,8 @@ import numpy as np
 
 from vlib import common
 from harness import screens as S
-from harness.c02 import permute_mappings, show_stage
+from harness.c02 import (attrs_snapshot, build_layout, cross_process_observables, dict_diff, first_diff, many_names_raw,
+                         observables, permute_mappings, props_snapshot, show_stage, whitespace_rename, LAYOUTS)
 
 common.use_repo_sources()
 
@@ -38,7 +39,13 @@ RULE = ("prepared screens: S.gen_raw, arity 1-3 (mostly 1-2), 2-8 plates, 4..14 
         "(treatment, dose).  On the training half and on the held-out half: history of 1..8 (quick) / ..20 (thorough) steps "
         "of mask_screen, unmask_screen, reveal_plates (ids in any order, repeated, already observed, unknown, empty), "
         "save_h5+load_h5 through a temp file, and cli.reveal_plate.main() on saved files; a raising step ends the history. "
-        "The DESIGN section-7 #1 witness always runs first.  Non-trivial: some sample or non-control (treatment, dose) occurs "
+        "The DESIGN section-7 #1 witness always runs first, then a fixed corpus in which one sample / (treatment, dose) occurs only in "
+        "held-out rows and sorts at the START, in the MIDDLE and at the END of the names, each with histories that save+load (library and "
+        "CLI) repeatedly on both sides.  Hardening classes (class.*): every screen object snapshotted (all attributes) around every step "
+        "and at the end; mapping/control attributes and all ExperimentSpace properties compared by introspection at every stage; after every "
+        "reload a posterior sample cut to the RELOADED stage's space sizes must predict the training half, the test screen and the prepared "
+        "screen; 25% non-C memory layouts, 10% long names, 7% >= 11 names; the same screen object split twice; up to 8 saved training halves "
+        "reloaded in another interpreter (other PYTHONHASHSEED).  Non-trivial: some sample or non-control (treatment, dose) occurs "
         "only in held-out rows AND at least one reveal/mask/unmask succeeded afterwards on the training half.")
 
 ORACLES = ("ids", "maps", "space", "pred")     # all four always run; a self-test may restrict the tuple
@@ -46,6 +53,8 @@ SIG_IDS = "C03:ids-changed"
 SIG_MAP = "C03:mapping-changed"
 SIG_SPACE = "C03:space-shrank"
 SIG_PRED = "C03:prediction-changed"
+SIG_INPUT = "C03:input-mutated"
+SIG_XPROC = "C03:other-process-differs"
 
 OBS_VALUES = [1.0, 0.5, 0.25, 0.75, 1e-300, 0.3333333333333333, 0.9, 0.1, 2.0, 0.7000000000000001]
 NAN_BITS = [0x7FF8000000000000, 0x7FF8000000000001, 0xFFF8000000000000]
@@ -125,13 +134,16 @@ class Reference:
         self.n_s = int(sp.n_unique_samples)
         self.theta = None
         self.pred = None
+        self.arrays = None
+        self.space_props = props_snapshot(sp)          # every property of the experiment space, by introspection
+        self.map_attrs = {k: v for k, v in attrs_snapshot(orig).items() if ("mapping" in k and "plate" not in k) or "control" in k}
         if int(orig.treatment_arity) in (1, 2) and self.n_t > 0 and self.n_s > 0 and orig.size > 0:
             from batchie.models.sparse_combo import SparseDrugComboMCMCSample
             g = np.random.default_rng(theta_seed)
-            self.theta = SparseDrugComboMCMCSample(
-                W=g.normal(size=(self.n_s, dim)), W0=g.normal(size=(self.n_s,)), V2=g.normal(size=(self.n_t, dim)),
-                V1=g.normal(size=(self.n_t, dim)), V0=g.normal(size=(self.n_t,)), alpha=float(g.normal()),
-                precision=float(1.0 + g.random()))
+            self.arrays = dict(W=g.normal(size=(self.n_s, dim)), W0=g.normal(size=(self.n_s,)), V2=g.normal(size=(self.n_t, dim)),
+                               V1=g.normal(size=(self.n_t, dim)), V0=g.normal(size=(self.n_t,)), alpha=float(g.normal()),
+                               precision=float(1.0 + g.random()))
+            self.theta = SparseDrugComboMCMCSample(**{k: (v.copy() if hasattr(v, "copy") else v) for k, v in self.arrays.items()})
             try:
                 self.pred = (np.array(self.theta.predict_viability(orig)), np.array(self.theta.predict_conditional_mean(orig)))
             except Exception:
@@ -242,13 +254,82 @@ def check_stage(ref, stage, rows, prev_sizes, case, step, res):
     return False, sizes
 
 
+def check_resized_theta(ref, stage, targets, case, step, res):
+    """a model sized by THIS stage's experiment space (what train_model does with the screen it is given) must still index every
+    row of the other screens of the simulation: a posterior sample with the embedding sizes implied by `stage` (the reference
+    sample's arrays cut to those sizes) predicts the reference values on the training half, the test half and the prepared screen"""
+    from batchie.data import ExperimentSpace
+    from batchie.models.sparse_combo import SparseDrugComboMCMCSample
+    if ref.theta is None:
+        return False
+    sp = ExperimentSpace.from_screen(stage)
+    n_t, n_s = int(sp.n_unique_treatments), int(sp.n_unique_samples)
+    a = ref.arrays
+    c = dict(case)
+    c["failing_step"] = step
+    try:
+        th = SparseDrugComboMCMCSample(W=a["W"][:n_s].copy(), W0=a["W0"][:n_s].copy(), V2=a["V2"][:n_t].copy(), V1=a["V1"][:n_t].copy(),
+                                       V0=a["V0"][:n_t].copy(), alpha=a["alpha"], precision=a["precision"])
+    except Exception as e:
+        res.fail("cannot size a posterior sample by a derived screen's experiment space", c, "%s: %s" % (type(e).__name__, e),
+                 {"sizes": [n_t, n_s]}, signature=SIG_SPACE)
+        return True
+    for name, scr, rows in targets:
+        if scr is None or int(scr.size) == 0:
+            continue
+        try:
+            v = np.array(th.predict_viability(scr))
+            ok = np.array_equal(v, ref.pred[0][rows])
+            seen = {"step": step, "on": name, "sizes_of_stage": [n_t, n_s], "viability": [float(x) for x in v]}
+        except Exception as e:
+            ok = False
+            seen = {"step": step, "on": name, "sizes_of_stage": [n_t, n_s], "raised": "%s: %s" % (type(e).__name__, e)}
+        if not ok:
+            res.fail("a posterior sample sized by a derived (reloaded) screen's experiment space does not index / predict the %s" % name, c,
+                     seen, {"sizes_of_prepared_screen": [ref.n_t, ref.n_s], "viability": [float(x) for x in ref.pred[0][rows]]},
+                     signature=SIG_SPACE)
+            return True
+    return False
+
+
+def check_introspective(ref, stage, case, step, res):
+    """attribute completeness: every mapping / control attribute of the stage (found in vars()) and every property of its
+    experiment space (found on the class) equals the prepared screen's"""
+    from batchie.data import ExperimentSpace
+    c = dict(case)
+    c["failing_step"] = step
+    mine = {k: v for k, v in attrs_snapshot(stage).items() if ("mapping" in k and "plate" not in k) or "control" in k}
+    d = dict_diff(ref.map_attrs, mine)
+    if d is not None:
+        res.fail("attribute '%s' of a derived screen (found by introspection) differs from the prepared screen's" % d[0], c,
+                 {"step": step, "name": d[0], "derived": d[2]}, {"prepared": d[1]}, signature=SIG_MAP)
+        return True
+    d = dict_diff(ref.space_props, props_snapshot(ExperimentSpace.from_screen(stage)))
+    if d is not None:
+        res.fail("experiment-space property '%s' (found by introspection) differs from the prepared screen's" % d[0], c,
+                 {"step": step, "name": d[0], "derived": d[2]}, {"prepared": d[1]}, signature=SIG_SPACE)
+        return True
+    return False
+
+
+def check_untouched(res, case, obj, snap, what, step):
+    d = dict_diff(snap, attrs_snapshot(obj))
+    if d is not None:
+        c = dict(case)
+        c["failing_step"] = step
+        res.fail("%s modifies the screen it was called on (attribute '%s')" % (what, d[0]), c, {"step": step, "name": d[0], "after": d[2]},
+                 {"before": d[1]}, signature=SIG_INPUT)
+        return True
+    return False
+
+
 # ----------------------------------------------------------------------------- one prepared screen -> reference + halves
 
 class Prepared:
     def __init__(self, case, split=True):
         from batchie.retrospective import mask_screen
         self.raw = case_raw(case)
-        self.orig = S.build(self.raw)
+        self.orig = build_layout(self.raw, case.get("layout", "c"))
         self.ref = Reference(self.orig, case["theta_seed"], case["dim"])
         self.P = mask_screen(self.orig) if case["premask"] else self.orig
         self.split_error = None
@@ -368,8 +449,14 @@ def run_side(prep, case, tmp, res, gen=None, n_ops=0, check=True, lean=False):
         rows = all_rows[~selv] if side == "train" else all_rows[selv]
         entries.append(("stage", show_stage(cur)))
         info["zero_row"] = int(cur.size) == 0
+        targets = [("training half", prep.keep, all_rows[~selv]), ("held-out test screen", prep.test, all_rows[selv]),
+                   ("prepared screen", prep.orig, all_rows)]
         if check and not failed:
             failed, sizes = check_stage(ref, cur, rows, sizes, case, "hold-out", res)
+        if check and not failed:
+            failed = check_introspective(ref, cur, case, "hold-out", res) or check_resized_theta(ref, cur, targets, case, "hold-out", res)
+    watched = [(o, attrs_snapshot(o), n) for o, n in ((prep.orig, "prepared screen"), (prep.P, "split screen"), (prep.keep, "training half"),
+                                                     (prep.test, "held-out half")) if o is not None] if check else []
     ops = case["ops"] if gen is None else []
     done = []
     t = 0
@@ -384,19 +471,35 @@ def run_side(prep, case, tmp, res, gen=None, n_ops=0, check=True, lean=False):
             op = gen_op(gen, cur, lean)
         done.append(op)
         t += 1
+        before = attrs_snapshot(cur) if check else None
         try:
             nxt = apply_op(cur, op, tmp)
         except Exception as e:
+            if check and not failed:
+                failed = check_untouched(res, dict(case, ops=list(done)), cur, before, "a refused / failing " + op_tok(op), "op %d: %s" % (t - 1, op_tok(op)))
             entries.append(("cli" if op[0] == "cli" else "stage", S.err_tok(e)))
             info["ended"] = "%s:%s" % (op[0], S.err_tok(e))
             break
-        cur = nxt
+        prev, cur = cur, nxt
         info["steps"] += 1
         if op[0] in ("m", "u", "r"):
             info["ok_structural"] += 1
         entries.append(("cli" if op[0] == "cli" else "stage", show_stage(cur)))
+        step = "op %d: %s" % (t - 1, op_tok(op))
         if check and not failed:               # the recorded case holds the history up to this step
-            failed, sizes = check_stage(ref, cur, rows, sizes, dict(case, ops=list(done)), "op %d: %s" % (t - 1, op_tok(op)), res)
+            failed, sizes = check_stage(ref, cur, rows, sizes, dict(case, ops=list(done)), step, res)
+        if check and not failed:
+            failed = check_untouched(res, dict(case, ops=list(done)), prev, before, op_tok(op), step) \
+                or check_introspective(ref, cur, dict(case, ops=list(done)), step, res)
+        if check and not failed and op[0] in ("s", "cli"):
+            # a model sized by the RELOADED stage must still index the training half, the test screen and the prepared screen
+            failed = check_resized_theta(ref, cur, targets, dict(case, ops=list(done)), step, res)
+            info["reloads"] = info.get("reloads", 0) + 1
+    if check and not failed:
+        for o, snap, name in watched:
+            if check_untouched(res, dict(case, ops=list(done)), o, snap, "the history (its input, the %s,)" % name, "end of history"):
+                failed = True
+                break
     if gen is not None:
         case["ops"] = done
     info["failed"] = failed
@@ -440,14 +543,25 @@ def gen_prepared(rng, n_max):
         if len(raw["snames"]) >= 4:
             break
     kind = "fresh"
+    y = rng.random()
+    if y < 0.07:
+        # >= 11 samples / treatments with numeric suffixes: two-digit ids, s10 sorts before s2
+        raw = many_names_raw(rng)
+        raw["obs"] = [rng.choice(OBS_VALUES) for _ in raw["snames"]]
+        kind = "many-names"
+    elif y < 0.17:
+        # names of 17..130 characters (longer than any fixed-width buffer a refactor might allocate)
+        raw, did = whitespace_rename(rng, raw, variants=lambda x: [x + "_" + "0123456789abcdef" * k + t for k in (1, 2, 4, 8)
+                                                                     for t in ("", "\u00e9")])
+        kind = "long-names" if did else kind
     z = rng.random()
     if z < 0.05:                                   # one plate all zero: revealing it alone refuses
         p = rng.choice(raw["pnames"])
         raw["obs"] = [0.0 if q == p else x for q, x in zip(raw["pnames"], raw["obs"])]
-        kind = "zero-plate"
+        kind += "+zero-plate"
     elif z < 0.10:                                 # a NaN: revealing its plate refuses
         raw["obs"][rng.randrange(len(raw["obs"]))] = S.from_bits(rng.choice(NAN_BITS))
-        kind = "nan-row"
+        kind += "+nan-row"
     if rng.random() < 0.18:
         try:
             tm, sm = S.superset_mappings(rng, raw)
@@ -524,6 +638,49 @@ def witness_cases():
     return [tr, te, bal]
 
 
+def position_cases():
+    """fixed corpus: ONE sample / (treatment, dose) occurs only in held-out rows and sorts at the START, in the MIDDLE or at the
+    END of the prepared screen's names (a name that sorts after every name still present leaves the ROW ids of a fresh
+    re-encoding unchanged while the mapping table and the embedding sizes shrink); both sides run histories that save and reload
+    (library and CLI) the screen repeatedly"""
+    samples = ["s1", "s3", "s5", "s7"]
+    treats = ["t1", "t3", "t5", "t7"]
+    tn, sn, pn, obs = [], [], [], []
+    for i, sname in enumerate(samples):
+        for j in range(3):
+            tn.append([treats[(i + j) % 4], treats[(i + j + 1) % 4]])
+            sn.append(sname)
+            pn.append("p%d" % ((i + j) % 3))
+            obs.append(0.05 + 0.07 * (3 * i + j))
+    raw = dict(ctrl="control", arity=2, tnames=tn, tdoses=[[1.0, 1.0]] * len(sn), snames=sn, pnames=pn, obs=obs, mask=None, tmap=None, smap=None)
+    out = []
+    for what, names in (("sample", samples), ("treatment", treats)):
+        for pos, idx in (("start", 0), ("middle", 2), ("end", 3)):
+            name = names[idx]
+            sel = [int(name == sn[r] if what == "sample" else name in tn[r]) for r in range(len(sn))]
+            base = {"raw": raw, "obs_bits": obs_bits_list(raw), "premask": False, "theta_seed": 11 + idx, "dim": 2,
+                    "kind": "position-%s-%s" % (what, pos),
+                    "split": {"fn": "random", "mode": "stub", "seed": None, "fraction": stub_fraction(sum(sel), len(sel)), "sel": sel}}
+            out.append(dict(base, side="train", ops=[["s"], ["m"], ["s"], ["r", [1, 0]], ["s"], ["cli", [2]], ["s"], ["u"], ["s"]]))
+            out.append(dict(base, side="test", ops=[["s"], ["m"], ["r", [0]], ["cli", [1]], ["s"]]))
+    return out
+
+
+def name_positions(orig, hs, ht):
+    """where the hold-out-only names sit in the sort order of the prepared screen's mapping names: start / middle / end"""
+    out = set()
+    sn = sorted(set(str(x) for x in orig.sample_mapping[0]))
+    for x in hs:
+        i = sn.index(x)
+        out.add("sample-" + ("start" if i == 0 else "end" if i == len(sn) - 1 else "middle"))
+    tm = orig.treatment_mapping
+    keys = sorted(set((str(a), float(b)) for a, b, c in zip(*tm) if int(c) >= 0))
+    for x in ht:
+        i = keys.index((x[0], float(x[1])))
+        out.add("treatment-" + ("start" if i == 0 else "end" if i == len(keys) - 1 else "middle"))
+    return out
+
+
 # ----------------------------------------------------------------------------- entry points
 
 def account(res, case, info):
@@ -548,13 +705,24 @@ def run(ctx, res):
     queue = []                                      # (line, entries, case)
     try:
         # fixed corpus: DESIGN section 7 #1
-        for case in witness_cases():
-            prep = Prepared(case)
+        xproc = []
+        for case in witness_cases() + position_cases():
+            try:
+                prep = Prepared(case)
+            except Exception as e:
+                res.fail("constructing / masking a valid prepared screen raises", case, "%s: %s" % (type(e).__name__, e), "a screen")
+                continue
             line, entries, info = run_side(prep, case, tmp, res)
             res.evaluations += 1
-            res.count("corpus.witness")
+            res.count("corpus.witness" if case["kind"] == "witness" else "corpus.position")
             queue.append((line, entries, case))
             hs, ht = holdout_only(prep.orig, prep.sel, prep.ref)
+            if case["kind"] != "witness":
+                for pos in name_positions(prep.orig, hs, ht):
+                    res.count("class.non-default-ids.hold-out-only-%s.%s" % (pos, case["side"]))
+                res.count("class.non-default-ids")
+                if info.get("reloads"):
+                    res.count("class.non-default-ids.reloaded-stage-sizes-a-model", info["reloads"])
             if (hs or ht) and case["side"] == "train" and info["ok_structural"]:
                 res.nontrivial.add(common.short_hash([case["raw"], case["split"], case["ops"]]))
             res.sample({"kind": "witness", "side": case["side"], "hold-out-only": {"samples": hs, "treatments": [list(x) for x in ht]},
@@ -567,7 +735,8 @@ def run(ctx, res):
                 break
             raw, prep_kind = gen_prepared(rng, n_max)
             base = {"raw": raw, "obs_bits": obs_bits_list(raw), "premask": rng.random() < 0.4,
-                    "theta_seed": rng.randrange(2 ** 31), "dim": rng.choice([2, 3]), "kind": prep_kind}
+                    "theta_seed": rng.randrange(2 ** 31), "dim": rng.choice([2, 3]), "kind": prep_kind,
+                    "layout": rng.choice(LAYOUTS) if rng.random() < 0.25 else "c"}
             # the split is chosen looking at the built screen (unobserved plates, conditions)
             try:
                 prep = Prepared(base, split=False)
@@ -584,6 +753,44 @@ def run(ctx, res):
                 hs, ht = holdout_only(prep.orig, prep.sel, prep.ref)
             else:
                 hs, ht = [], []
+            # ---- hardening-checklist classes ---------------------------------------------------------------------
+            res.count("class.input-mutation")                      # every screen object snapshotted (all attributes) around every step
+            res.count("class.attribute-completeness")              # mapping/control attributes + space properties by introspection
+            if base["layout"] != "c" or "long-names" in prep_kind:
+                res.count("class.memory-layout-dtype")
+            if "hand-made" in prep_kind or "superset" in prep_kind or hs or ht:
+                res.count("class.non-default-ids")
+            for pos in name_positions(prep.orig, hs, ht):
+                res.count("class.non-default-ids.hold-out-only-" + pos)
+            if "many-names" in prep_kind:
+                res.count("class.size-boundary.ge-11-names")
+            sn_ = raw["snames"]
+            if any(sn_[i] != sn_[i - 1] and sn_[i] in sn_[:i - 1] for i in range(2, len(sn_))):
+                res.count("class.row-orderings")                   # rows of a sample not contiguous (A, B, A)
+            if (split["mode"] == "rng" and split["fraction"] in (0.0, 1.0)) or any(p.endswith("start") for p in name_positions(prep.orig, hs, ht)):
+                res.count("class.falsy-boundaries")                # fraction 0 / 1, id 0 (first name in sort order) only held out
+            if prep.sel is not None and prep.split_error is None:
+                # object reuse: the SAME screen object split once more with the same selection gives the same halves
+                try:
+                    k2, t2, _ = do_split(prep.P, dict(split, mode="stub", sel=[int(b) for b in prep.sel],
+                                                      fraction=split["fraction"] if split["mode"] == "stub" else
+                                                      (stub_fraction(sum(prep.sel), len(prep.sel)) if split["fn"] == "random" else split["fraction"])))
+                    res.count("class.object-reuse")
+                    if split["fn"] == "random" and (show_stage(k2), show_stage(t2)) != (show_stage(prep.keep), show_stage(prep.test)):
+                        res.fail("splitting the same screen object a second time (same selection) gives other halves", dict(base, side="train", ops=[]),
+                                 {"second": [show_stage(k2)[:300], show_stage(t2)[:300]]},
+                                 {"first": [show_stage(prep.keep)[:300], show_stage(prep.test)[:300]]}, signature=SIG_IDS)
+                except Exception as e:
+                    if split["fn"] == "random":
+                        res.fail("splitting the same screen object a second time raises", dict(base, side="train", ops=[]),
+                                 "%s: %s" % (type(e).__name__, e), "the same halves", signature=SIG_IDS)
+            if prep.keep is not None and int(prep.keep.size) > 0 and len(xproc) < 8 and (hs or ht):
+                fnx = os.path.join(tmp, "xproc_%d.h5" % len(xproc))
+                try:
+                    prep.keep.save_h5(fnx)
+                    xproc.append((fnx, observables(prep.keep), dict(base, side="train", ops=[["s"]])))
+                except Exception:
+                    pass
             res.count("prepared." + prep_kind)
             res.count("prepared.premask" if base["premask"] else "prepared.as-is")
             res.count("prepared.arity.%d" % raw["arity"])
@@ -616,6 +823,18 @@ def run(ctx, res):
                     res.sample({"kind": prep_kind, "split": kind_split, "side": side, "premask": base["premask"],
                                 "hold-out-only": {"samples": hs, "treatments": [list(x) for x in ht]},
                                 "ops": "+".join(op_tok(o) for o in case["ops"]), "line": line[:260]})
+        if xproc:
+            # cross-process determinism: a saved training half loads to the same ids / mappings in another interpreter
+            try:
+                back = cross_process_observables([x[0] for x in xproc], 1 + rng.randrange(4000000000))
+                for (fnx, wantx, casex), gotx in zip(xproc, back):
+                    res.count("class.cross-process")
+                    d = first_diff(wantx, gotx)
+                    if d is not None:
+                        res.fail("a saved training screen loads differently in another interpreter process ('%s')" % d[0], casex,
+                                 {"field": d[0], "other_process": d[2]}, {"field": d[0], "this_process": d[1]}, signature=SIG_XPROC)
+            except Exception as e:
+                res.notes.append("cross-process reload not run: %s" % e)
     finally:
         shutil.rmtree(tmp, ignore_errors=True)
     if ctx.driver is not None:
